@@ -12,7 +12,7 @@
 (* dilation per level, the (N, C, 4, H, W) layout and the mode handed to    *)
 (* the padding routine.                                                     *)
 (***************************************************************************)
-EXTENDS DWT1, Json
+EXTENDS DWT1, SWTSrc, Json
 
 CONSTANTS NSet, LSet, DSet,      \* sizes, filter lengths, dilations
           Shard, NShards, Emit,
@@ -36,6 +36,10 @@ ImplAtrous(N, L, d) ==
     IN  FromSrc(outn, L, N, LAMBDA n, t : idx[n + d * (L - 1 - t)])
 
 AtrousSame(c) == Same3(ImplAtrous(c.N, c.L, c.d), RefSwt(c.N, c.L, c.d))
+\* the scalar maps of SWTSrc (what TLAPS reasons about for all sizes and dilations) are these tensors
+SwtScalarForm(c) ==
+    /\ Same3(ImplAtrous(c.N, c.L, c.d), FromSrc(ImplSwtCount(c.N, c.L, c.d), c.L, c.N, LAMBDA n, t : ImplSwtSrc(c.N, c.L, c.d, n, t)))
+    /\ Same3(RefSwt(c.N, c.L, c.d), FromSrc(c.N, c.L, c.N, LAMBDA n, i : RefSwtSrc(c.N, c.L, c.d, n, i)))
 \* undecimated: as many outputs as inputs
 FullResolution(c) == ImplAtrous(c.N, c.L, c.d).no = c.N
 \* circular shift-equivariance as an operator identity
@@ -82,7 +86,7 @@ Dilation(j) == 2 ^ (j - 1)           \* level j = 1..J uses 2**(j-1)
 Next == PickOp \/ StartSwt \/ SwtLevel \/ SwtReturn
 Spec == Init /\ [][Next]_vars
 
-OpOK == pc = "op" => (AtrousSame(cfg) /\ FullResolution(cfg))
+OpOK == pc = "op" => (AtrousSame(cfg) /\ FullResolution(cfg) /\ SwtScalarForm(cfg))
 ShiftOK == (pc = "op" /\ cfg.N <= 16) => ShiftEquivariant(cfg)
 SwtNoRaise == pc # "raise"
 SwtFeedsLL == (pc = "swt" /\ lvl > 0) => band0 = "LL"
